@@ -453,6 +453,35 @@ def rule_complete(program, ctx):
         ctx.bad(finding_func(P, rid, kc, "collect() no longer awaits storage.delete_event(id) for each id of the collected list", text="def collect(...) :: delete loop"))
 
 
+def rule_tagrows_kept(program, ctx, prop=P, rid="C17.tagrows"):
+    ctx.rule(
+        rid,
+        "the collector finds an expiring event through its ('expiration', value) row in `tags` and nowhere else, so tag rows disappear only together with their event "
+        "(ON DELETE CASCADE): no statement in the package deletes from `tags` directly - a maintenance command that empties the table and re-indexes *some* events leaves "
+        "the others with their NIP-40 tag in events.tags but invisible to every later pass",
+        floor=1,
+    )
+    n = 0
+    for m in program.modules.values():
+        if not m.name.startswith("nostr_relay") or ".alembic." in m.name:
+            continue
+        for c in ast.walk(m.tree):
+            hit = None
+            if isinstance(c, ast.Call) and isinstance(c.func, ast.Attribute) and c.func.attr == "delete" and ("TagTable" in ast.unparse(c.func.value) or "'tags'" in ast.unparse(c.func.value) or '"tags"' in ast.unparse(c.func.value)):
+                hit = c
+            if isinstance(c, ast.Call) and call_name(c).split(".")[-1] == "delete" and c.args and ("TagTable" in ast.unparse(c.args[0]) or "tags" in ast.unparse(c.args[0]).lower().split("event")[0]) and "Event" not in ast.unparse(c.args[0]):
+                hit = c
+            if isinstance(c, ast.Constant) and isinstance(c.value, str) and re.search(r"DELETE\s+FROM\s+tags\b", c.value, re.I):
+                hit = c
+            if hit is not None:
+                n += 1
+                fn_ = next((a for a in ancestors(hit) if isinstance(a, (ast.FunctionDef, ast.AsyncFunctionDef))), None)
+                ctx.bad(finding_at(prop, rid, hit, f"{m.name.split('.')[-1]}.{fn_.name if fn_ else '<module>'} deletes rows of `tags` directly: events whose expiration row is gone are never "
+                                   "collected again"))
+    if not n:
+        ctx.ok(rid, program.module("nostr_relay.storage.db").tree, "tag rows are only removed by the cascade of their event")
+
+
 def rule_gc_statement(program, ctx, prop=P, rid="C17.statement"):
     ctx.rule(
         rid,
@@ -515,6 +544,7 @@ def run(program, ctx):
     # a storage subclass (recipe) must not keep ephemeral / expiring events away from the base class' post_save bookkeeping
     c07.rule_overrides(program, ctx, prop=P, rid="C17.overrides")
     rule_gc_statement(program, ctx)
+    rule_tagrows_kept(program, ctx)
     # the collector finds expiring events through their tag rows: process_tags failures must abort the insert, not be swallowed
     c07.rule_sqlregion(program, ctx, prop=P, rid="C17.txn")
     ctx.note("informational: the LMDB GC's end key to_key(29999) is a strict prefix of every kind-29999 key, so `key > end` stops before them; moot today because "
